@@ -178,6 +178,7 @@ structure Sys where
   log : List Event := []
   rows : List Row := []
   crashed : Option Err := none
+  halted : Bool := false            -- the exception has left env.run
   -- history variables (ghost)
   starts : List Tid := []           -- do_work activations, in order
   active : List (Mid × Tid) := []   -- live do_work bodies
